@@ -54,7 +54,8 @@ StatProblems(c, fps, stats) ==
 Class(f) == IF ~f.p THEN "absent" ELSE IF f.bin THEN "binary" ELSE IF f.mode = "120000" THEN "symlink"
             ELSE IF f.lines = <<>> THEN "empty" ELSE "text"
 Key(c) == Class(c.old["f1"]) \o "->" \o Class(c.new["f1"]) \o
-          (IF c.old["f2"].p \/ c.new["f2"].p THEN ";" \o Class(c.old["f2"]) \o "->" \o Class(c.new["f2"]) ELSE "") \o
+          (IF c.fam = "M" THEN ";multi-file"     \* the second file's kind is not part of the scenario key
+           ELSE IF c.old["f2"].p \/ c.new["f2"].p THEN ";" \o Class(c.old["f2"]) \o "->" \o Class(c.new["f2"]) ELSE "") \o
           (IF c.ctx = 0 THEN ",ctx=0" ELSE "")
 
 \* git apply --unidiff-zero does not reproduce the target from git diff -U0's own output when a hunk
@@ -63,10 +64,19 @@ Key(c) == Class(c.old["f1"]) \o "->" \o Class(c.new["f1"]) \o
 GitApplyQuirk(c, fps) == c.ctx = 0 /\ \E j \in 1..Len(fps) : \E k \in 1..Len(fps[j].hunks) :
                             fps[j].hunks[k].nl = 0 /\ HasNonl(OldSide(fps[j].hunks[k]))
 
+\* a patch of several files is the concatenation of the patches go-git writes for each file alone
+\* (rec.solo: the same case restricted to one path at a time); rename pairs are one file patch over
+\* two paths and are exempt
+LeakProblems(rec) ==
+  IF rec.soloerr # "" THEN {"unusable-solo-patch"}
+  ELSE IF \E j \in 1..Len(rec.fps) : rec.fps[j].rename THEN {}
+  ELSE IF rec.fps = rec.solo["f1"] \o rec.solo["f2"] THEN {} ELSE {"state-leaks-between-files"}
+
 Verdict(rec) ==
   [id |-> rec.id, key |-> Key(rec.c), ctx |-> rec.c.ctx, quirk |-> rec.err = "" /\ GitApplyQuirk(rec.c, rec.fps),
    probs |-> IF rec.err # "" THEN <<"unusable-patch">>
-             ELSE SetToSeq(PatchProblems(rec.c.old, rec.c.new, rec.fps, rec.c.ctx) \cup StatProblems(rec.c, rec.fps, rec.stats)),
+             ELSE SetToSeq(PatchProblems(rec.c.old, rec.c.new, rec.fps, rec.c.ctx) \cup StatProblems(rec.c, rec.fps, rec.stats)
+                           \cup LeakProblems(rec)),
    gprobs |-> IF ~rec.hasgit THEN <<>>
               ELSE IF rec.gerr # "" THEN <<"unusable-patch">>
               ELSE SetToSeq(PatchProblems(rec.c.old, rec.c.new, rec.gfps, rec.c.ctx) \cup StatProblems(rec.c, rec.gfps, rec.gstats))]
